@@ -122,7 +122,7 @@ def relational(report, progs, variants, base_label, names_fn=None, opts=None, ke
                 stats['variant_' + str(c.status)] += 1
                 if c.status in ('panic', 'timeout', 'crash'):
                     stats['variant_crash'] += 1
-                if reject_is_violation:
+                if reject_is_violation or c.status in ('panic', 'timeout', 'crash'):
                     report.violation('reject:%s@%s' % (p.pid, label), '%s: accepted as %s but %s as %s: %s' % (p.pid, base_label, c.status, label, c.msg),
                                      dict(kind='tv-reject', pid=p.pid, base=base_label, variant=label, args_variant=list(args_base) + list(args),
                                           source_base=reqsrc['%s@%s' % (p.pid, base_label)], source_variant=reqsrc[rid], status=c.status, msg=c.msg))
